@@ -35,10 +35,17 @@ func init() {
 func runC12(c *Ctx) {
 	keys := map[string]string{}
 	for _, name := range []string{"MakeSuccListByID", "MakeSuccListByAddress"} {
+		keys[name] = succListObligations(c, "succlist", name)
+	}
+	c.Ob("succlist", "siblings-agree-up-to-key", 0, keys["MakeSuccListByID"] == "ID" && keys["MakeSuccListByAddress"] == "GetAddress", fmt.Sprintf("ByID de-duplicates by ID(), ByAddress by Identity().GetAddress(); found %v", keys))
+}
+
+// succListObligations checks one successor-list builder and returns its key selector.
+func succListObligations(c *Ctx, rule, name string) string {
+	{
 		fn := c.Func("spec/chord", "", name)
 		ok, det, sel := dedupLoop(fn, 1)
-		c.Ob("succlist", name+"#loop-obligations", fn.Decl.Pos(), ok, det)
-		keys[name] = sel
+		c.Ob(rule, name+"#loop-obligations", fn.Decl.Pos(), ok, det)
 		// initial list [immediate], seen[K(immediate)] = true
 		okInit, okMark := false, false
 		keyText := ""
@@ -59,7 +66,7 @@ func runC12(c *Ctx) {
 			}
 			return true
 		})
-		c.Ob("succlist", name+"#starts-with-immediate", fn.Decl.Pos(), okInit, "the result starts as [immediate]")
+		c.Ob(rule, name+"#starts-with-immediate", fn.Decl.Pos(), okInit, "the result starts as [immediate]")
 		// the key function applied to the immediate node is the one applied to the elements
 		var rs *ast.RangeStmt
 		ast.Inspect(fn.Body, func(n ast.Node) bool {
@@ -82,7 +89,7 @@ func runC12(c *Ctx) {
 				return true
 			})
 		}
-		c.Ob("succlist", name+"#immediate-marked-with-same-key", fn.Decl.Pos(), okMark && keyText != "" && keyText == elemKey, fmt.Sprintf("seen[K(immediate)] is set with the same key function as the elements (immediate: %s, elements: %s)", keyText, elemKey))
+		c.Ob(rule, name+"#immediate-marked-with-same-key", fn.Decl.Pos(), okMark && keyText != "" && keyText == elemKey, fmt.Sprintf("seen[K(immediate)] is set with the same key function as the elements (immediate: %s, elements: %s)", keyText, elemKey))
 		// bound test dominates the append and breaks
 		if rs != nil {
 			var ap *ast.CallExpr
@@ -105,7 +112,7 @@ func runC12(c *Ctx) {
 					return isLen && fn.Prov(be.Y) == "param#2" && ((be.Op == token.GEQ && !truth) || (be.Op == token.LSS && truth))
 				})
 			}
-			c.Ob("succlist", name+"#bound-before-append", fn.Decl.Pos(), okBound, "len(list) < maxLen holds on every path to the append (the bound test comes first and leaves the loop)")
+			c.Ob(rule, name+"#bound-before-append", fn.Decl.Pos(), okBound, "len(list) < maxLen holds on every path to the append (the bound test comes first and leaves the loop)")
 			// the bound branch breaks (does not continue: a continue would still be correct for the bound but breaks order only if appends could follow; require break/return)
 			okBreak := false
 			ast.Inspect(rs.Body, func(n ast.Node) bool {
@@ -125,14 +132,14 @@ func runC12(c *Ctx) {
 				}
 				return true
 			})
-			c.Ob("succlist", name+"#full-list-stops", fn.Decl.Pos(), okBreak, "once the list is full the loop stops")
+			c.Ob(rule, name+"#full-list-stops", fn.Decl.Pos(), okBreak, "once the list is full the loop stops")
 		}
 		// returns the list
 		for _, r := range fn.Returns() {
-			c.Ob("succlist", name+"#returns-the-list", r.Pos(), strings.Contains(fn.Prov(r.Results[0]), "lit:[]VNode"), "the built list is returned; found "+fn.Prov(r.Results[0]))
+			c.Ob(rule, name+"#returns-the-list", r.Pos(), strings.Contains(fn.Prov(r.Results[0]), "lit:[]VNode"), "the built list is returned; found "+fn.Prov(r.Results[0]))
 		}
+		return sel
 	}
-	c.Ob("succlist", "siblings-agree-up-to-key", 0, keys["MakeSuccListByID"] == "ID" && keys["MakeSuccListByAddress"] == "GetAddress", fmt.Sprintf("ByID de-duplicates by ID(), ByAddress by Identity().GetAddress(); found %v", keys))
 }
 
 func runC10(c *Ctx) {
